@@ -183,9 +183,12 @@ pub fn run(args: &Args, out: &mut Out) {
             if p.is_empty() || !p.split('.').all(|seg| seg.chars().all(|c| c.is_ascii_alphanumeric() || c == '_') && !seg.is_empty() && !seg.chars().next().unwrap().is_ascii_digit()) {
                 continue;
             }
-            match (j + i) % 3 {
+            match (j + i) % 4 {
                 0 => src.push_str(&format!("local _k{j} = {p}\n")),
                 1 => src.push_str(&format!("{p}(1)\n")),
+                // a static-table local as the only / as a late argument of a call statement: unused_variable looks up the
+                // parameter at that position, whatever number of parameters (none included) the entry declares
+                2 => src.push_str(&format!("local _t{j} = {{}}\n{p}({}_t{j})\n", if i % 2 == 0 { "" } else { "1, 2, " })),
                 _ => src.push_str(&format!("{p} = nil\n")),
             }
         }
